@@ -52,6 +52,15 @@ CONTROLS = {
         ("toggle at subject edges instead of clip edges", E, "        if (edge_c->local_min->polytype == PathType::Subject)\n          return;",
          "        if (edge_c->local_min->polytype == PathType::Clip)\n          return;", "T.open-toggle"),
     ],
+    "C06": [
+        ("clean-up union of reversed paths with the wrong fill rule (tree output)", O, "\t\t\tc.Execute(ClipType::Union, FillRule::Negative, *solution_tree);",
+         "\t\t\tc.Execute(ClipType::Union, FillRule::Positive, *solution_tree);", "OFFSET.cleanup"),
+        ("reversed group offset with the unreversed sign", O, "\t\tgroup_delta_ = (group.is_reversed) ? -delta : delta;", "\t\tgroup_delta_ = delta;", "OFFSET.sign"),
+    ],
+    "C19": [
+        ("quads not normalised", H + "clipper.minkowski.h", "          if (!IsPositive(quad))\n            std::reverse(quad.begin(), quad.end());\n", "", "MINK.orientation"),
+        ("closing edge swept for open paths", H + "clipper.minkowski.h", "      size_t delta = isClosed ? 0 : 1;", "      size_t delta = 0;", "MINK.closing-edge"),
+    ],
     "C07": [
         ("delta used without abs for open paths", O, "group_delta_ = std::abs(delta_);// *0.5;", "group_delta_ = delta_;", "DELTA.abs-only"),
         ("end cap differs from start cap", O, "DoBevel(path, highI, highI);", "DoSquare(path, highI, highI);", "CAP.table"),
